@@ -174,6 +174,15 @@ func (e *Explorer) exploreNode(path []string) *NodeResult {
 			}
 			if len(keep) < len(viols) {
 				p.Add("nondeterministic_failures", int64(len(viols)-len(keep)))
+				for _, v := range viols {
+					found := false
+					for _, k := range keep {
+						found = found || k.sig == v.sig
+					}
+					if !found && len(p.Notes) < 4 {
+						p.Notes = append(p.Notes, fmt.Sprintf("failure not reproduced identically on re-execution (engine-internal map iteration order decides which record of a batch reaches the file first), dropped: %s [%s]", v.sig, pathStr(path)))
+					}
+				}
 			}
 			viols = keep
 		}
@@ -249,7 +258,7 @@ func (e *Explorer) judge(path []string, res *NodeResult, count bool) []viol {
 		where := fmt.Sprintf("config=%s history=[%s] crash at %s (acked=%d accepted=%d); image: %s", s.Name, pathStr(path), c.Desc, c.Acked, c.Accepted, c.Img.Describe())
 		add := func(kind, desc string, post []string) {
 			sig := fmt.Sprintf("%s op=%s at=%s mode=%s sync=%v", kind, lastOp, c.Class, s.Mode, sync)
-			if rec.H != nil && rec.H.DB != nil && (strings.HasPrefix(kind, "ack") || kind == "not-a-prefix" || kind == "partial-batch") {
+			if rec.H != nil && rec.H.DB != nil && (strings.HasPrefix(kind, "ack") || kind == "not-a-prefix") {
 				// where the recovered LSM holds copies of each key: separates "data is there but
 				// not read" from "data is gone" (distinct mechanisms get distinct signatures)
 				sig += " copies=" + s.Locate(rec.H)
@@ -298,13 +307,13 @@ func (e *Explorer) judge(path []string, res *NodeResult, count bool) []viol {
 			}
 			rec.Close()
 			key := s.Name + c.Img.Hash
-			if e.seenPost[key] {
-				if count {
+			if count { // (verification re-runs of a failing history judge every image again)
+				if e.seenPost[key] {
 					p.Add("post_skipped_duplicate_image", 1)
+					continue
 				}
-				continue
+				e.seenPost[key] = true
 			}
-			e.seenPost[key] = true
 			if count {
 				p.Mark("outcomes", fmt.Sprintf("%x", vr.Hash64(base.Canon())))
 			}
@@ -652,6 +661,40 @@ func MaybeChild(specs []*Spec) {
 	vr.Fatalf("child: unknown spec %q", req.Spec)
 }
 
+// treeDiff returns "" when two trees are identical except for at most 5 bytes per SST of
+// equal-length MANIFEST files (the CreatedAt seconds of AddFile edits).
+func treeDiff(a, b *crashfs.Image) string {
+	an, bn := a.Names(), b.Names()
+	if strings.Join(an, " ") != strings.Join(bn, " ") {
+		return "file sets differ"
+	}
+	ssts := 0
+	for _, n := range an {
+		if strings.HasSuffix(n, ".sst") {
+			ssts++
+		}
+	}
+	for _, n := range an {
+		x, y := a.Files[n], b.Files[n]
+		if string(x) == string(y) {
+			continue
+		}
+		if !strings.HasPrefix(n, "MANIFEST-") || len(x) != len(y) {
+			return "file " + n + " differs"
+		}
+		d := 0
+		for i := range x {
+			if x[i] != y[i] {
+				d++
+			}
+		}
+		if d > 5*(ssts+1) {
+			return fmt.Sprintf("file %s differs in %d bytes", n, d)
+		}
+	}
+	return ""
+}
+
 // crossValidate re-executes the history in child processes that are killed (SIGKILL) at
 // chosen crash points and requires the surviving directory tree to be byte-identical to the
 // image the in-process snapshot recorded for that point.
@@ -725,7 +768,13 @@ func (e *Explorer) crossOnce(path []string) string {
 			return cerr.Error()
 		}
 		if got.Hash != pt.Image.Hash {
-			return fmt.Sprintf("point %s: in-process image {%s} != killed child's tree {%s}", pt.String(), pt.Image.Describe(), got.Describe())
+			// The only wall-clock dependent bytes of a work directory are the CreatedAt stamps
+			// (unix seconds, varint) inside manifest AddFile edits: a MANIFEST file of equal
+			// length differing in a few bytes is accepted and counted separately.
+			if d := treeDiff(pt.Image, got); d != "" {
+				return fmt.Sprintf("point %s: in-process image {%s} != killed child's tree {%s}: %s", pt.String(), pt.Image.Describe(), got.Describe(), d)
+			}
+			p.Add("crossval_points_identical_modulo_manifest_timestamps", 1)
 		}
 		p.Add("crossval_points_identical", 1)
 	}
